@@ -15,6 +15,7 @@ Conventions
   theorems quantify over all of them.
 -/
 import KyroModel.Base.Assoc
+import KyroModel.Store.Filter
 
 namespace KyroModel
 
@@ -439,6 +440,22 @@ def audit (s : TState D) : TState D × Nat :=
   ({ s with hot := (staleHot digest s).foldl (fun h id => aerase id h) s.hot,
             l1a := (staleHot digest s).foldl (fun l id => l.invalidate id) s.l1a,
             qcClears := s.qcClears + 1 }, (staleHot digest s).length)
+
+/-- ids the filtered delete selects from the hot tier: scan of the *mirror's* metadata, then
+    (since fix "re-check hot candidates against canonical metadata") only candidates whose
+    canonical metadata also matches, or that have no canonical record at all (orphan scrub). -/
+def hotFilterIds (parse : String → Option Nat) (s : TState D) (f : Filter) : List Nat :=
+  ((s.hot.filter fun p => matchesF parse f p.2.md).map (·.1)).filter fun id =>
+    match alookup id s.cold with
+    | some d => matchesF parse f d.md
+    | none => true
+
+def coldFilterIds (parse : String → Option Nat) (c : Cold) (f : Filter) : List Nat :=
+  (c.filter fun p => matchesF parse f p.2.md).map (·.1)
+
+/-- `TieredEngine::batch_delete_by_metadata_filter` -/
+def deleteByFilter (parse : String → Option Nat) (s : TState D) (f : Filter) : TState D × Nat :=
+  batchDelete s (hotFilterIds parse s f ++ coldFilterIds parse s.cold f)
 
 /-! ### Adversarial pokes (harness plants entries through the public cache / hot-tier APIs) -/
 
